@@ -209,4 +209,15 @@ example : exExplicit.allDetermined := by
   simp
 example : (exExplicit.runAll [.dim 0, .apply 0 0, .grad 0]).condDim 0 [(5, 4)] = .dim 4 := by decide
 
+/-- **explicit_geometry_writes_are_labels** (bridge to the heap model of `Model/C11.lean`).  The heap model leaves the
+    geometry getter out and declares a geometry's `_variable_name` a benign cache (`Fld.vname`).  This is conservative:
+    if every geometry is determined, then for every sequence of operations of the getter model EVERY logged attribute
+    write is a `_variable_name` label — no `_geometry` is ever re-bound — so adding the getter to the heap model's
+    operations adds writes to a benign field only, which all its frame theorems already allow. -/
+theorem explicit_geometry_writes_are_labels (s : St) (hw : WF s) (hall : s.allDetermined) (ops : List Op) :
+    ∃ l, (s.runAll ops).log = l ++ s.log ∧ ∀ w ∈ l, ∃ g, w = Wr.geoVname g :=
+  runAll_lab hw hall ops
+
+example : (exExplicit.runAll [.dim 0, .apply 0 0, .grad 0]).log = [.geoVname 0, .geoVname 0] := by decide
+
 end CuqiVerif.C11.Geo
